@@ -11,14 +11,14 @@ trap cleanup EXIT
 cd "$WT" || exit 2
 git apply "$SRC/patch.diff" || { echo "NOT CONFIRMED: patch does not apply"; exit 1; }
 /verif/tools/suite.sh "$WT" >/tmp/confirm.$$.log 2>&1 || { echo "NOT CONFIRMED: suite fails with change"; tail -20 /tmp/confirm.$$.log; exit 1; }
-cp "$SRC/$DEMO" "$WT/$DEST"
+cp "$SRC/$DEMO" "$WT/$DEST"; for f in $EXTRA_FILES; do cp "$SRC/$f" "$WT/$(dirname "$DEST")/$f"; done
 PKG=$(dirname "$DEST")
 MOD=ociregistry; case "$DEST" in cmd/ocisrv/*) MOD=cmd/ocisrv;; ociregistry/internal/conformance/*) MOD=ociregistry/internal/conformance;; esac
 REL=${PKG#$MOD}; REL=./${REL#/}
-if (cd "$WT/$MOD" && go test -vet=off -count=1 "$REL" >/tmp/confirm.$$.log 2>&1); then echo "NOT CONFIRMED: demo passes with change"; exit 1; fi
+if (cd "$WT/$MOD" && go test -vet=off -count=1 $EXTRA_TEST_FLAGS "$REL" >/tmp/confirm.$$.log 2>&1); then echo "NOT CONFIRMED: demo passes with change"; exit 1; fi
 grep -m3 -- '--- FAIL\|panic:' /tmp/confirm.$$.log
 git -C "$WT" checkout -- . 
-if ! (cd "$WT/$MOD" && go test -vet=off -count=1 "$REL" >/tmp/confirm.$$.log 2>&1); then echo "NOT CONFIRMED: demo fails without change"; tail -20 /tmp/confirm.$$.log; exit 1; fi
+if ! (cd "$WT/$MOD" && go test -vet=off -count=1 $EXTRA_TEST_FLAGS "$REL" >/tmp/confirm.$$.log 2>&1); then echo "NOT CONFIRMED: demo fails without change"; tail -20 /tmp/confirm.$$.log; exit 1; fi
 mkdir -p /verif/seeded/$SID
 cp "$SRC/patch.diff" "$SRC/$DEMO" /verif/seeded/$SID/
 [ -f "$SRC/notes.md" ] && cp "$SRC/notes.md" /verif/seeded/$SID/
